@@ -670,7 +670,7 @@ func sideDoors(c *Ctx, rule string) {
 		return typeStr(a.Type())
 	}
 	n := 0
-	scanCalls(c.P, c.P.LibFns, func(s string) bool { return s == "encoding/xml.Unmarshal" }, func(s callSite) {
+	scanCalls(c.P, c.P.LibFns, func(s string) bool { return s == "encoding/xml.Unmarshal" || s == "(*encoding/xml.Decoder).Decode" }, func(s callSite) {
 		n++
 		tt := targetType(s)
 		for _, rs := range rawSites {
